@@ -289,6 +289,14 @@ class TypeInfoVisitor(DispatchingVisitor):
         return _peek(self._input_type_stack, 1)
 
     @property
+    def enclosing_input_type(self) -> Optional[GraphQLType]:
+        """
+        Type expected at the position of the list or object literal whose
+        members are currently being visited.
+        """
+        return _peek(self._input_type_stack, 2)
+
+    @property
     def parent_input_type(self) -> Optional[InputObjectType]:
         t = _peek(self._input_type_stack, 2)
         named = unwrap_type(t) if t is not None else None
